@@ -208,7 +208,8 @@ RESOLUTIONS = ["480p (640 x 480)", "720p (1280 x 720)", "1080p (1920 x 1080)", "
 
 @st.composite
 def specs(draw, sharing=None, builders=None, max_len=48, long_prob=0.1, neg_stored=0.15, fixed=0.2,
-          max_ups=3, spare_ups=2, empty_lists=0.05, explicit=0.7, zero_journey=0.1, big=0.0, same_names=0.15):
+          max_ups=3, spare_ups=2, empty_lists=0.05, explicit=0.7, zero_journey=0.1, big=0.0, same_names=0.15,
+          prefer_gpu=0.0):
     """A well-formed model. ``sharing``: none | infra_only | jobs_too (drawn when None)."""
     if sharing is None:
         sharing = draw(st.sampled_from(["none", "infra_only", "jobs_too", "jobs_too"]))
@@ -228,12 +229,17 @@ def specs(draw, sharing=None, builders=None, max_len=48, long_prob=0.1, neg_stor
 
     # servers with their storage
     n_srv = draw(st.integers(1, 4 if is_big else 3))
+    want_gpu = bool(builders) and draw(st.floats(0, 1)) < prefer_gpu
+    if want_gpu:
+        n_srv = max(n_srv, 2)
     servers = []
     for i in range(n_srv):
         stn = "st%d" % i
         objs[stn] = fill("Storage", {"cls": "Storage"})
         cls = "Server"
-        if builders and i > 0:
+        if builders and i == 1 and want_gpu:
+            cls = "GPUServer"
+        elif builders and i > 0:
             cls = draw(st.sampled_from(["Server", "GPUServer", "BoaviztaCloudServer"]))
         elif builders:
             cls = draw(st.sampled_from(["Server", "BoaviztaCloudServer"]))
@@ -259,8 +265,10 @@ def specs(draw, sharing=None, builders=None, max_len=48, long_prob=0.1, neg_stor
     # services
     services = []
     if builders:
-        for i in range(draw(st.integers(0, 2))):
+        for i in range(draw(st.integers(1 if want_gpu else 0, 2))):
             srv = draw(st.sampled_from(servers))
+            if want_gpu and i == 0:
+                srv = "srv1"      # the GPU server gets a generative AI service
             scls = objs[srv]["cls"]
             if scls == "GPUServer":
                 prov, model, tot = draw(st.sampled_from(genai_choices()))
@@ -609,24 +617,11 @@ def choice_edit(draw, spec):
         if e["cls"] == "GenAIModel":
             cands.append((n, "model_name"))
             cands.append((n, "provider+model_name"))
+            cands.append((n, "model+tokens"))
     n, a = draw(st.sampled_from(sorted(cands)))
     e = spec["objs"][n]
-    if a in ("model_name", "provider+model_name"):
-        # models that fit in the GPU server's memory (a bigger one makes the target model invalid: both sides reject)
-        srv = spec["objs"][e["server"]]
-        cap_gb = srv.get("compute", [4.0])[0] * srv.get("ram_per_gpu", [80.0])[0] * \
-            srv.get("server_utilization_rate", [1.0])[0]
-        fits = [(p_, m_) for p_, m_, tot in genai_choices() if 1.2 * tot * 1e9 * 16 / 8e9 < cap_gb * 0.9] \
-            or [(e["provider"], e["model_name"])]
-        if a == "model_name":
-            same = [m_ for p_, m_ in fits if p_ == e["provider"]] or [e["model_name"]]
-            return dict(op="choice", obj=n, attr="model_name", val=draw(st.sampled_from(same)))
-        p_, m_ = draw(st.sampled_from(fits))
-        if p_ == e["provider"]:
-            return dict(op="choice", obj=n, attr="model_name", val=m_)
-        # the provider can only change together with a compatible model, in one update
-        return dict(op="group", edits=[dict(op="choice", obj=n, attr="provider", val=p_),
-                                       dict(op="choice", obj=n, attr="model_name", val=m_)])
+    if a in ("model_name", "provider+model_name", "model+tokens"):
+        return draw(genai_model_edit(spec, n, a))
     if a == "server_type":
         allowed = ["autoscaling", "on-premise", "serverless"]
         if e.get("fixed_nb_of_instances") is not None:
@@ -641,6 +636,36 @@ def choice_edit(draw, spec):
         prov = e["provider"]
         val = draw(st.sampled_from([i for p, i in boavizta_choices() if p == prov]))
     return dict(op="choice", obj=n, attr=a, val=val)
+
+
+@st.composite
+def genai_model_edit(draw, spec, n, a):
+    """Another model for a GenAIModel service: of the same provider (one assignment) or of any provider (provider and
+    model in one update, the only supported way); ``a`` = model_name | provider+model_name | model+tokens."""
+    e = spec["objs"][n]
+    if True:
+        # models that fit in the GPU server's memory (a bigger one makes the target model invalid: both sides reject)
+        srv = spec["objs"][e["server"]]
+        cap_gb = srv.get("compute", [4.0])[0] * srv.get("ram_per_gpu", [80.0])[0] * \
+            srv.get("server_utilization_rate", [1.0])[0]
+        fits = [(p_, m_) for p_, m_, tot in genai_choices() if 1.2 * tot * 1e9 * 16 / 8e9 < cap_gb * 0.9] \
+            or [(e["provider"], e["model_name"])]
+        if a in ("model_name", "model+tokens"):
+            same = [m_ for p_, m_ in fits if p_ == e["provider"]] or [e["model_name"]]
+            ed = dict(op="choice", obj=n, attr="model_name", val=draw(st.sampled_from(same)))
+            jobs = sorted(j for j, je in spec["objs"].items() if je["cls"] == "GenAIJob" and je["service"] == n)
+            if a == "model+tokens" and jobs:
+                j = draw(st.sampled_from(jobs))
+                cur = spec["objs"][j].get("output_token_count") or S.default_quantity("GenAIJob", "output_token_count")
+                return dict(op="group", edits=[ed, dict(op="q", obj=j, attr="output_token_count",
+                                                        val=[cur[0] * 2, cur[1]])])
+            return ed
+        p_, m_ = draw(st.sampled_from(fits))
+        if p_ == e["provider"]:
+            return dict(op="choice", obj=n, attr="model_name", val=m_)
+        # the provider can only change together with a compatible model, in one update
+        return dict(op="group", edits=[dict(op="choice", obj=n, attr="provider", val=p_),
+                                       dict(op="choice", obj=n, attr="model_name", val=m_)])
 
 
 def _keeps_profile(spec, after):
